@@ -87,8 +87,10 @@ def hostile_half(ctx, verdict, cov, quick, only=None):
     pk = available()
     todo = {}
     skipped = {}
-    for c in select(allcases, quick):
-        if c["reactor"] in pk and (only is None or case_key(c) in only):
+    chosen = select(allcases, quick)
+    chosen_keys = {case_key(c) for c in chosen}
+    for c in allcases:
+        if case_key(c) in chosen_keys and c["reactor"] in pk and (only is None or case_key(c) in only):
             todo.setdefault(c["reactor"], []).append(c)
         else:
             skipped[c["reactor"]] = skipped.get(c["reactor"], 0) + 1
